@@ -16,23 +16,23 @@ TECHNIQUE = "exhaustive (capability-subset x entry point) table + Hypothesis-gen
 LEVEL_TEXT = ("Exploration: engines are built with every allowed-capability set (None, empty, subsets), tools with arbitrary required sets are registered and re-registered through "
               "every registration path, and requested through every entry point (expression auto/forced pathways, execute_tool_call, Nucleus.transcribe_with_tools with a "
               "scripted adversarial provider). After every step no disallowed tool body has run, refusals are reported as failures and no secret token leaked. The single-tool "
-              "table 64 allowed-subsets x 64 required-subsets sampled on a lattice x 7 entry points is enumerated.")
+              "table 64 allowed-subsets x 64 required-subsets sampled on a lattice x 10 entry points is enumerated.")
 LEVEL_NOTE = "The model follows the latest registration under a tool name; required capabilities are read from `required_capabilities`, else `capabilities`, as the engine documents."
 PROPERTY = "C03"
 BUDGET = {"quick": 6000, "thorough": 150000}
 RULE = ("Generated: allowed-capability set in {None} + subsets of the 6 capabilities (incl. empty), constructor tools, and histories of up to 12 register/re-register/call steps over "
-        "3 tool names, 3 registration paths and 7 entry points. Enumerated: one tool, allowed set x required set over a 12x12 lattice of subsets x 7 entry points (1008 cases). "
+        "3 tool names, 3 registration paths and 10 entry points. Enumerated: one tool, allowed set x required set over a 12x12 lattice of subsets x 10 entry points (1440 cases). "
         "Non-trivial: a step requested a disallowed tool through a path that resolved the tool name.")
 ASSUMPTIONS = [
     "a tool's requirement is `required_capabilities`, falling back to `capabilities` (both spellings are honoured by the engine)",
     "permitted tools running is only counted (non-vacuity), never demanded",
 ]
 MIN_NONTRIVIAL_FRACTION = 0.2
-EXHAUSTIVE_NOTE = {"quick": "12 allowed sets (incl. None, empty, full) x 12 required sets x 7 entry points = 1008 single-tool cases, complete for that lattice",
+EXHAUSTIVE_NOTE = {"quick": "12 allowed sets (incl. None, empty, full) x 12 required sets x 10 entry points = 1440 single-tool cases, complete for that lattice",
                    "thorough": "same lattice, complete"}
 
 CAPS = ["READ_FS", "WRITE_FS", "NET", "EXEC_CODE", "MONEY", "EMAIL_SEND"]
-ENTRIES = ["auto", "forced-tool", "forced-math", "forced-logic", "forced-transform", "execute_tool_call", "nucleus"]
+ENTRIES = ["auto", "forced-tool", "forced-math", "forced-logic", "forced-transform", "execute_tool_call", "nucleus", "nested-arg", "in-arithmetic", "in-comparison"]
 HOWS = ["engulf", "register_function", "custom-capabilities-attr"]
 TOOLS = ["t0", "t1", "t2"]
 
@@ -143,10 +143,22 @@ def judge(case):
         reported_success = None
         returned = []
         try:
-            if entry in ("auto", "forced-tool", "forced-math", "forced-logic", "forced-transform"):
+            if entry in ("auto", "forced-tool", "forced-math", "forced-logic", "forced-transform", "nested-arg", "in-arithmetic", "in-comparison"):
                 pw = {"auto": None, "forced-tool": MetabolicPathway.OXIDATIVE, "forced-math": MetabolicPathway.GLYCOLYSIS,
-                      "forced-logic": MetabolicPathway.KREBS_CYCLE, "forced-transform": MetabolicPathway.BETA_OXIDATION}[entry]
-                r = m.metabolize("%s()" % name, pw)
+                      "forced-logic": MetabolicPathway.KREBS_CYCLE, "forced-transform": MetabolicPathway.BETA_OXIDATION}.get(entry)
+                text = "%s()" % name
+                if entry == "nested-arg":
+                    # as the argument of a permitted helper tool registered just for this request
+                    counters.setdefault("helper", 0)
+                    required.setdefault("helper", set())
+                    if "helper" not in m.tools:
+                        m.register_function("helper", lambda *a, **k: "helper-result", "d")
+                    text = "helper(%s())" % name
+                elif entry == "in-arithmetic":
+                    text = "len(%s()) + 1" % name
+                elif entry == "in-comparison":
+                    text = "1 < len(%s())" % name
+                r = m.metabolize(text, pw)
                 reported_success = r.success
                 returned.append(repr(r.atp.value) if r.atp else "")
                 returned.append(r.error or "")
@@ -186,7 +198,7 @@ def judge(case):
             return out
         d = {"step": i, "entry": entry, "tool": name, "allowed": case["allowed"], "required": sorted(required.get(name, [])),
              "ran": counters.get(name, 0) - before.get(name, 0), "reported_success": reported_success}
-        resolved = name in required and entry not in ("forced-math", "forced-logic", "forced-transform")
+        resolved = name in required and entry not in ("forced-math", "forced-logic", "forced-transform", "in-arithmetic", "in-comparison")
         if disallowed(name):
             if resolved:
                 out.nontrivial = True
@@ -208,7 +220,7 @@ def judge(case):
                 out.label("permitted-tool-ran")
         # no other tool may have run
         for other, c in counters.items():
-            if other != name and c != before.get(other, 0):
+            if other not in (name, "helper") and c != before.get(other, 0):
                 out.fail("bystander-tool-ran", "tool %s ran although %s was requested" % (other, name), d)
                 return out
     return out
